@@ -65,6 +65,11 @@ CHECKS = {
         text="PureGen.tla enumerates every call sequence of length <= 2 (and length 3: sampled in quick, all in thorough) over a pool of 40 call descriptions touching every side channel (path-literal f-strings, failing first/second pass, every macro kind incl. unfinished ones, tokenizer errors mid-stream, verbose, py_version, parse_file on one path with changing content), and every interleaving of two short parses at token-pull granularity. Histories run back to back in one process, schedules with two threads gated per token pull, plus a free-running thread pool (switch interval 1 us). Oracle: the same call in a fresh interpreter (two hash seeds). TLC validates every recorded trace (outcome = fresh outcome at each step; kept trees unchanged at the end).",
         note="Byte-code-level preemption is only sampled (free-running pool); shared state reachable from a parse is a C-implemented lru_cache, immutable singletons and module imports.",
         ref="5/C13"),
+    "C15": dict(
+        technique="TLC enumeration of the option grid with the gate-table model's prediction (Options.tla) replayed into the real parser; recorded outcomes validated by TLC against OptTrace.tla",
+        text="Options.tla holds the gate table (except* -> 3.11; type parameter lists / type statement -> 3.12) and predicts for every program x verbose {F,T} x py_version {None,(3,8)..(3,13)} point: identical to the default, or a SyntaxError naming the required version (for programs rejected anyway but containing gated syntax: still rejected). Programs: gated features in several positions and combinations, look-alikes (type/match as names), plus samples of the C01 program space (valid and invalid) and harvested xonsh inputs. All grid points of all programs are run (stdout discarded) and validated by TLC.",
+        note="Need/validity per program come from CPython's own tree (TryStar, TypeAlias, type_params) when it parses, from the text otherwise. Interpreter 3.12 caps py_version.",
+        ref="5/C15"),
     "C14": dict(
         technique="TLC enumeration of statement sequences from StmtSeq.tla -> composition law checked on the real parser; tree pairs (whole vs shifted parts) trace-validated by TLC (AstEq.tla)",
         text="StmtSeq.tla lists 55 complete statement forms (Python simple/compound, multi-line tokens, comment/blank lines, every xonsh statement form incl. empty macros and path-literal concatenations); TLC enumerates every sequence of up to 2 (all kinds) / 3 (xonsh-heavy subset) kinds in quick, 3 / 4 in thorough; the body of the concatenation must equal the bodies of the parts with shifted line numbers, positions included.",
